@@ -72,7 +72,7 @@ func TestVerifC02Parrots(t *testing.T) {
 	}
 	{
 		rng := l.Rand("c02k2")
-		for i := 0; i < l.Pick(210, 12000); i++ {
+		for i := 0; i < l.Pick(210, 40000); i++ {
 			id := quicworld.QUICIDNames[rng.IntN(len(quicworld.QUICIDNames))]
 			var fs []simworld.Fault
 			for j := 0; j < 2; j++ {
@@ -211,7 +211,7 @@ func TestVerifC02Derived(t *testing.T) {
 	l := evlog.Open("C02")
 	defer l.Close()
 	rng := l.Rand("c02derived")
-	n := l.Pick(250, 6000)
+	n := l.Pick(250, 24000)
 	bases := append([]string{"hello:small", "hello:mid", "hello:big1", "hello:pq", "hello:huge"}, quicworld.QUICIDNames...)
 	acts := []simworld.Action{{Kind: "drop"}, {Kind: "dup"}, {Kind: "delay", Delay: 40 * time.Millisecond}, {Kind: "dup", Delay: 30 * time.Millisecond}, {Kind: "dup", Delay: 120 * time.Millisecond}}
 	// transport parameters a conformant server does not require
@@ -351,7 +351,7 @@ func TestVerifC02NilSpec(t *testing.T) {
 			return &quic.Config{InitialStreamReceiveWindow: 77777, InitialConnectionReceiveWindow: 99999, MaxIncomingStreams: 7, MaxIncomingUniStreams: 3, InitialPacketSize: 1252}
 		}},
 	}
-	dials := l.Pick(6, 60)
+	dials := l.Pick(6, 150)
 	for i, cf := range confs {
 		if !l.Mine(i) {
 			continue
@@ -437,7 +437,7 @@ func c02Overlap(t *testing.T, raceJob bool) {
 	var cases []ovCase
 	ids := append([]string{"unil", "plain"}, quicworld.QUICIDNames...) // "plain": the ordinary Transport, as the reference the spec-less UTransport has to match
 	drop := simworld.Action{Kind: "drop"}
-	for rep := 0; rep < l.Pick(1, 6); rep++ {
+	for rep := 0; rep < l.Pick(1, 15); rep++ {
 		for _, id := range ids {
 			cases = append(cases, ovCase{Name: fmt.Sprintf("overlap/clean/%s/r%d", id, rep), QUICID: id, Dials: 3 + rep%2})
 			for d := 0; d < 2; d++ {
@@ -450,7 +450,7 @@ func c02Overlap(t *testing.T, raceJob bool) {
 	}
 	// dials that start at the same instant (handshakes, Retry handling and the per-dial copies of the spec run
 	// concurrently in one process)
-	for rep := 0; rep < l.Pick(2, 10); rep++ {
+	for rep := 0; rep < l.Pick(2, 25); rep++ {
 		for _, id := range ids {
 			if id != "unil" && id != "plain" {
 				// Simultaneous dials of a spec-driven client share the spec's uTLS extension objects (server
